@@ -19,7 +19,7 @@
 
 use anyhow::{anyhow, Error};
 use std::env;
-use std::io;
+use std::io::{self, Write};
 use std::path::Path;
 use std::process;
 
@@ -51,7 +51,10 @@ pub(crate) fn run() -> Result<(), Error> {
         let relpath = redo::relpath(&do_path, &cwd)?;
         let relpath_str = relpath.as_os_str().to_str().unwrap();
         assert!(!relpath_str.contains('\n'));
-        println!("{}", relpath_str);
+        if writeln!(io::stdout(), "{}", relpath_str).is_err() {
+            // nobody reads the listing any more
+            return Ok(());
+        }
         if do_path.exists() {
             return Ok(());
         }
